@@ -241,9 +241,16 @@ class Interp:
                         if lin is not None:
                             v = lin
                             continue
-                        # unknown index: join of candidates (elements share type)
+                        # unknown index: join of the candidates its range admits (elements share type)
                         e0 = v[1][0] if v[1] else TOP
-                        v = top_int(e0[1], e0[2]) if is_int(e0) else TOP
+                        if is_int(idx) and off is not None and is_int(e0) and idx[5] - idx[4] < 64 and 0 <= idx[4] + off and idx[5] + off < len(v[1]):
+                            from .absval import join as _join
+                            acc = v[1][idx[4] + off]
+                            for k_ in range(idx[4] + off + 1, idx[5] + off + 1):
+                                acc = _join(acc, v[1][k_])
+                            v = acc
+                        else:
+                            v = top_int(e0[1], e0[2]) if is_int(e0) else TOP
                 elif v[0] == "arrtop":
                     v = v[3] if len(v) > 3 else TOP
                 else:
@@ -569,6 +576,24 @@ class Interp:
                 return top_int(ti[0], ti[1])
             return TOP
         if k in ("Ref", "RawPtr"):
+            pj = rv["p"]["proj"]
+            if pj and pj[-1][0] == "subslice":
+                # &s[from..] / &s[from..len-to] of a slice pattern (`[first, rest @ ..]`): the window moves
+                base = self.resolve(fn, fid, {"l": rv["p"]["l"], "proj": pj[:-1]}, st)
+                if base is None:
+                    return TOP
+                frm, to, from_end = pj[-1][1], pj[-1][2], pj[-1][3]
+                if base[3] is not None:
+                    s0, ln = base[3]
+                else:
+                    tgt = self.read_loc(st, (base[0], base[1], base[2], None))
+                    if not (isinstance(tgt, tuple) and tgt and tgt[0] == "arr"):
+                        return TOP
+                    s0, ln = const(0, 64), const(len(tgt[1]), 64)
+                if not (is_int(s0) and is_int(ln)):
+                    return TOP
+                newlen = int_binop("Sub", ln, const(frm + to, 64)) if from_end else const(to - frm, 64)
+                return ptr(base[0], base[1], base[2], (int_binop("Add", s0, const(frm, 64)), newlen), bool(rv.get("mut", True)))
             loc = self.resolve(fn, fid, rv["p"], st)
             if loc is None:
                 return TOP
@@ -582,6 +607,8 @@ class Interp:
                 d = v[3]
                 if a and a["kind"] == "enum":
                     d = int(a["variants"][v[3]]["discr"])
+                elif (v[2] or "").endswith("cmp::Ordering"):
+                    return top_int(64, True)                    # discriminants -1/0/1, not the variant index: left unknown
                 return const(d, 64, True)
             return top_int(64, True)
         if k == "Aggregate":
